@@ -608,6 +608,10 @@ pub async fn broadcast_changes(
     last_seq: CrsqlSeq,
     ts: Timestamp,
 ) -> Result<(), BroadcastError> {
+    #[cfg(feature = "verif")]
+    let _verif_pending = crate::verif::PendingGuard::adopt();
+    #[cfg(feature = "verif")]
+    crate::verif::gate("bcast").await;
     let actor_id = agent.actor_id();
     let conn = agent.pool().read().await?;
     trace!("got conn for broadcast");
@@ -640,7 +644,11 @@ pub async fn broadcast_changes(
 
                     let tx_bcast = agent.tx_bcast().clone();
                     assert_sometimes!(true, "Corrosion broadcasts changes");
+                    #[cfg(feature = "verif")]
+                    let verif_pending = crate::verif::PendingGuard::new();
                     tokio::spawn(async move {
+                        #[cfg(feature = "verif")]
+                        let _verif_pending = verif_pending;
                         if let Err(e) = tx_bcast
                             .send(BroadcastInput::AddBroadcast(BroadcastV1::Change(
                                 ChangeV1 {
